@@ -264,11 +264,16 @@ def check_C20(run):
 
 def check_C10(run):
     run.model("Bank")
+    run.model("BankPool")
+    v = V.run_tlc(run.scratch, "BankPool", "BankPool_defect", workers=4, timeout=600)
+    if "Invariant Disjoint is violated" not in v["out"]:
+        raise V.Infra("vacuity check failed: the BankPool model does not hand out overlapping memory when a bank is put into the pool twice")
     out, meta = run.drive("C10")
     total, rejected, states, _ = V.judge(run.scratch, "Trace_Bank", out)
     cov = std_cov(run, meta, total, states,
                   "(A) seeded sequences of 60 (400 thorough) bank operations over up to 4 concurrently open banks and 4 types + strings through the public surface, every live allocation's rank-compressed address range and content hash recorded after every step; "
-                  "(B) multi-block files of every codec read with ReadFile, all records retained, banks closed in a seeded order while reading continues, retained records re-projected at checkpoints; keys are part|run or codec|block size")
+                  "(B) multi-block files of every codec read with ReadFile, all records retained, banks closed in a seeded order while reading continues, retained records re-projected at checkpoints; "
+                  "(C) a read aborted by the callback after it closed its bank, then two complete reads (other values) with all records retained and every other bank closed in between; keys are part|run or codec|block size")
     return V.finish("C10", run.tier, run.seed, "model_checking", cov, rejected, out, run.t0,
                     TRUSTED + ["addresses and content hashes of bank memory are read by the harness with unsafe (TLA+ cannot observe Go memory)"])
 
